@@ -617,6 +617,79 @@ func c03LongLived(c *choice.Ctx, rep *report.R) {
 	rep.State("longlived|" + desc)
 }
 
+// c03QuicOverlap: several queries overlap on one DoQ connection (each on its own stream, accepted by the real handleConn) and are
+// answered by the upstream in every order: each stream carries exactly the response to its own query, whichever handler ends first.
+func c03QuicOverlap(c *choice.Ctx, rep *report.R) {
+	own := env.InstallOwn(0xA5, vRace)
+	defer env.UninstallOwn()
+	n := 2 + c.Choose(2, "streams")
+	perms := [][]int{{0, 1}, {1, 0}}
+	if n == 3 {
+		perms = [][]int{{0, 1, 2}, {0, 2, 1}, {1, 0, 2}, {1, 2, 0}, {2, 0, 1}, {2, 1, 0}}
+	}
+	perm := perms[c.Choose(len(perms), "completion-order")]
+	desc := fmt.Sprintf("%d overlapping DoQ streams on one connection, upstream answers in order %v", n, perm)
+	fail := func(sig, msg string) {
+		rep.Violate("C03:quic:overlap:"+sig, msg+"\n  "+desc, map[string]any{"Choices": c.Choices(), "QuicOverlap": true})
+	}
+	v, err := vNewRouter(c03Config("forward"), "u1")
+	if err != nil {
+		fail("router-start", err.Error())
+		return
+	}
+	defer v.Close()
+	u := v.ups["u1"]
+	qs := v.newQuicServer()
+	conn := env.NewFakeQuicConn(vUDPAddr(vLocalV4), vUDPAddr(vClientV4))
+	go func() { // as quicServer.run does
+		qs.handleConn(conn)
+		conn.CloseWithError(0, "")
+	}()
+	v.closers = append(v.closers, func() { conn.Die() })
+	var streams []*env.FakeStream
+	for i := 0; i < n; i++ {
+		st, peer := env.NewFakeStream(i*4, vUDPAddr(vLocalV4), vUDPAddr(vClientV4))
+		streams = append(streams, st)
+		w := refdns.Query(0, refdns.N(fmt.Sprintf("ov%d", i), "example", "test"), 1, 1).Encode(false)
+		st.E.Inject(refdns.Frame(w))
+		peer.CloseWrite()
+		conn.PushStream(st)
+		wait()
+	}
+	pend := u.Pending()
+	if len(pend) != n {
+		fail("forwarding", fmt.Sprintf("%d of %d overlapping queries reached the upstream", len(pend), n))
+	}
+	for _, pi := range perm {
+		for _, p := range u.Pending() {
+			if p.Msg != nil && len(p.Msg.Q) == 1 && p.Msg.Q[0].Name.Lower().Equal(refdns.N(fmt.Sprintf("ov%d", pi), "example", "test")) {
+				p.Reply(env.Answer(p.Msg, byte(pi+1), 60).Encode(false))
+			}
+		}
+		wait()
+	}
+	hsleep(7 * time.Second)
+	wait()
+	for i, st := range streams {
+		fs, rest := env.SplitFrames(st.E.Written())
+		if len(fs) != 1 || rest != 0 {
+			fail("response-count", fmt.Sprintf("stream %d carries %d response frames (%d trailing octets): its query was answered on another stream, or its stream was closed under it", i, len(fs), rest))
+			continue
+		}
+		m, err := refdns.Decode(fs[0])
+		if err != nil || len(m.Q) != 1 || !m.Q[0].Name.Equal(refdns.N(fmt.Sprintf("ov%d", i), "example", "test")) || m.RCode() != 0 {
+			fail("wrong-response", fmt.Sprintf("stream %d (query ov%d) carries %v", i, i, m))
+		}
+	}
+	v.Close()
+	wait()
+	for _, x := range own.Audit() {
+		fail("ownership", x)
+	}
+	rep.Eval(desc)
+	rep.State("quic-overlap|" + desc)
+}
+
 // c03ManyQueries: more queries than a pipelined upstream connection has transaction ids (65536), one after the other through the
 // real router and the real pipelined transport over the scripted dialer: every single one gets its response - also the ones around
 // the point where the connection has used up its id space and the transport has to move on to a new connection.
@@ -965,13 +1038,14 @@ func TestVerifC03(t *testing.T) {
 		"plus, on every seam, a query advertising 65535 octets whose upstream answer is composed (listener encoding measured by two probes) so that the complete response is exactly 65500..65535 octets, one by one: exactly one well-formed response within 6.05 s, and an ordinary query afterwards is answered too; 2..3 queries arriving in one read on the tcp and gnet handlers, answered in either order: one matching response each; "+
 		"plus, on the tcp, tls (DoT over crypto/tls) and quic connection handlers with idle_timeout 2 s, one connection kept in use for four idle timeouts with a query every {0.5, 1.5, 1.9} s: every query answered, connection never closed under the client; "+
 		"plus 65576 sequential queries through the real pipelined transport (more than one connection's id space): each gets its response; "+
+		"plus 2-3 queries overlapping on one DoQ connection (streams accepted by the real handleConn), answered by the upstream in every order: each stream carries exactly its own response; "+
 		"plus, on every seam with the memory cache on, a second client asking a cached question (other id, RD set / clear, same or other letter case): the same header rules for the response served from the cache",
 		seams, len(queries), c03Rules, c03Ups)
-	huge, longLived, many, pair, cached := false, false, false, false, false
+	huge, longLived, many, pair, cached, overlap := false, false, false, false, false, false
 	if rp := report.ReplayFile(); rp != nil {
-		var x struct{ Huge, LongLived, Many, Pair, Cached bool }
+		var x struct{ Huge, LongLived, Many, Pair, Cached, QuicOverlap bool }
 		rp.Decode(&x)
-		huge, longLived, many, pair, cached = x.Huge, x.LongLived, x.Many, x.Pair, x.Cached
+		huge, longLived, many, pair, cached, overlap = x.Huge, x.LongLived, x.Many, x.Pair, x.Cached, x.QuicOverlap
 	}
 	if os.Getenv("VERIF_PROP") == "C13" && report.ReplayFile() == nil {
 		st := runExplore(t, rep, -1, func(c *choice.Ctx) { c03LongLived(c, rep) })
@@ -982,7 +1056,7 @@ func TestVerifC03(t *testing.T) {
 		st := runExplore(t, rep, -1, func(c *choice.Ctx) { c03Cached(c, rep) })
 		rep.Count("executions_cached", st.Executions)
 	}
-	if !huge && !longLived && !many && !pair && !cached {
+	if !huge && !longLived && !many && !pair && !cached && !overlap {
 		st := runExplore(t, rep, -1, func(c *choice.Ctx) { c03Scenario(c, rep, queries) })
 		rep.Count("executions", st.Executions)
 	}
@@ -1007,6 +1081,10 @@ func TestVerifC03(t *testing.T) {
 	if longLived || report.ReplayFile() == nil {
 		st := runExplore(t, rep, -1, func(c *choice.Ctx) { c03LongLived(c, rep) })
 		rep.Count("executions_long_lived", st.Executions)
+	}
+	if overlap || report.ReplayFile() == nil {
+		st := runExplore(t, rep, -1, func(c *choice.Ctx) { c03QuicOverlap(c, rep) })
+		rep.Count("executions_quic_overlap", st.Executions)
 	}
 	rep.Sample(map[string]any{"seam": "tcp", "rule": "forward", "query": "qr=0 op=0 rd=1 qd=1", "upstream": "silence", "expect": "one SERVFAIL at exactly 6s"})
 }
